@@ -121,6 +121,7 @@ type call struct {
 	stk uint64 // hash of the submitting goroutine's call stack: goroutine-stable tie-break
 	it  *iterRec // state-handler invocation of src that was open when the call was issued
 	ev  *SQLEvent // event of a statement whose reply is deferred (blocked SET read_only)
+	issued time.Duration // instant at which the caller issued the call
 	// filled by controller
 	key  string // stable identity incl. occurrence number
 	done bool
@@ -204,6 +205,7 @@ func (s *Sim) submit(c *call) sqlResult {
 		select {}
 	}
 	c.res = make(chan sqlResult, 1)
+	c.issued = s.now()
 	// stack identity by function name and line (program counters are not stable across
 	// processes when the binary is position independent)
 	var pcs [32]uintptr
